@@ -9,6 +9,11 @@
 (* created, plus a "solved" mark; what a solve yields is a function of the *)
 (* snapshot alone (token Snap(cfg)).                                       *)
 (*                                                                         *)
+(* Some items are DERIVED with a possible override: the contact distance   *)
+(* sigma_AB is recomputed (version 1, the arithmetic mean) whenever one of *)
+(* the two diameters is assigned, and the user may overwrite it afterwards *)
+(* (version 2, a non-additive mixture) - Resets / Needs describe that.     *)
+(*                                                                         *)
 (* createPRISM / solve on an incomplete System raise ValueError and create *)
 (* nothing; on a complete one they leave the System untouched; later edits *)
 (* never reach an existing PRISM; an edited and re-solved System yields    *)
@@ -19,6 +24,8 @@ EXTENDS Naturals, Sequences, FiniteSets, TLC
 CONSTANTS Items,        \* names of all items of the System
           Optional,     \* items that always have a value (kT has a default)
           Editable,     \* items the edit actions may touch
+          Resets(_),    \* Resets(i): derived items that assigning item i recomputes (back to version 1 = "derived value")
+          Needs(_),     \* Needs(i): items that must be set before item i can be assigned
           MaxMissing,   \* initial states: Systems with at most this many items unset
           MaxPrisms,
           MaxSteps
@@ -42,7 +49,8 @@ Init == /\ \E M \in SUBSET (Items \ Optional) :
 \* assign (or re-assign) one item
 Edit(i, v) ==
     /\ steps < MaxSteps /\ cfg[i] # v
-    /\ cfg' = [cfg EXCEPT ![i] = v]
+    /\ \A j \in Needs(i) : cfg[j] # 0
+    /\ cfg' = [j \in Items |-> IF j = i THEN v ELSE IF j \in Resets(i) THEN 1 ELSE cfg[j]]
     /\ UNCHANGED prisms /\ steps' = steps + 1
     /\ last' = [act |-> "Edit", item |-> i, ver |-> v, raises |-> ""]
 
